@@ -62,14 +62,14 @@ def project(store):
     out = []
     for a1, m in store._dict.items():
         for a0, q in m.items():
-            items = list(getattr(q, '_queue', q))         # asyncio.Queue / queue.Queue keep a deque in _queue; a plain deque or list is taken as it is
+            items = env.queue_items(q)         # asyncio.Queue / queue.Queue keep a deque in _queue; a plain deque or list is taken as it is; wrappers are looked into
             if items:
                 out.append({'a0': a0, 'a1': a1, 'q': [[c.decode(), dec(d)] for c, d in items]})
     return out
 
 
 def concrete_fp(store):
-    return repr(sorted((a1, a0, [(c, bytes(d)) for c, d in getattr(q, '_queue', q)]) for a1, m in store._dict.items() for a0, q in m.items()))
+    return repr(sorted((a1, a0, [(c, bytes(d)) for c, d in env.queue_items(q)]) for a1, m in store._dict.items() for a0, q in m.items()))
 
 
 def pat(v):
@@ -383,7 +383,7 @@ def body(ctx):
     if not bad:
         raise tlc.TlcError('binding self-test failed: a corrupted history was accepted')
     ctx.extra['sabotage_rejected'] = bad[0][2]
-    ctx.assumptions += ['projection reads _AdbPacketStore._dict and Queue._queue (a rename there is a machinery failure, exit 2, not a violation)',
+    ctx.assumptions += ['projection reads _AdbPacketStore._dict (pinned by the repository tests) and whatever container holds the packets of a stream',
                         'parking a CLSE for a pair with nothing pending may be kept or dropped (left open by C19; see C06/K1)']
 
 
